@@ -45,6 +45,13 @@ pub fn type_universe() -> Vec<Ty> {
         o(o(Ty::Bool)),
         l(l(Ty::Int)),
         Ty::Tuple(vec![Ty::Adt("Color"), o(Ty::Int)]),
+        // maps whose key and value types differ and need a structural check of their own
+        l(Ty::Pair(Rc::new(Ty::Bytes), Rc::new(Ty::Adt("Shape")))),
+        l(Ty::Pair(Rc::new(Ty::Adt("Color")), Rc::new(Ty::Int))),
+        l(Ty::Pair(Rc::new(Ty::Int), Rc::new(o(Ty::Int)))),
+        l(Ty::Pair(Rc::new(Ty::Bytes), Rc::new(l(Ty::Pair(Rc::new(Ty::Bytes), Rc::new(Ty::Int)))))),
+        l(Ty::Pair(Rc::new(Ty::Adt("Rec")), Rc::new(Ty::Tuple(vec![Ty::Int, Ty::Bool])))),
+        o(l(Ty::Pair(Rc::new(Ty::Int), Rc::new(Ty::Adt("Color"))))),
     ]
 }
 
@@ -114,6 +121,8 @@ pub struct Probe {
     pub definitions: Definitions<Annotated<Schema>>,
     pub enc: Program<DeBruijn>,
     pub dec: Program<DeBruijn>,
+    /// the same decoder compiled with verbose tracing (a different decoding path)
+    pub dec_verbose: Program<DeBruijn>,
 }
 
 pub fn probe_source(tys: &[Ty]) -> String {
@@ -133,8 +142,9 @@ pub fn build_probes(tys: &[Ty]) -> Result<Vec<Probe>, String> {
     for (k, t) in tys.iter().enumerate() {
         let enc = p.export("probe", &format!("enc_{k}"), silent()).map_err(|e| format!("export enc_{k}: {e:?}"))?;
         let dec = p.export("probe", &format!("dec_{k}"), silent()).map_err(|e| format!("export dec_{k}: {e:?}"))?;
+        let dec_verbose = p.export("probe", &format!("dec_{k}"), aiken_lang::ast::Tracing::All(aiken_lang::ast::TraceLevel::Verbose)).map_err(|e| format!("export dec_{k} (verbose): {e:?}"))?;
         let param = enc.parameters.first().cloned().ok_or("export has no parameter")?;
-        out.push(Probe { ty: t.clone(), param, definitions: enc.definitions.clone(), enc: enc.program.inner().clone(), dec: dec.program.inner().clone() });
+        out.push(Probe { ty: t.clone(), param, definitions: enc.definitions.clone(), enc: enc.program.inner().clone(), dec: dec.program.inner().clone(), dec_verbose: dec_verbose.program.inner().clone() });
     }
     Ok(out)
 }
@@ -223,7 +233,16 @@ pub fn run(tier: Tier, replay: Option<String>) -> i32 {
                 guarded(|| param.validate(defs, &Constant::Data(pd.clone())).is_ok())
             };
             let dec = run1(&pr.dec, d);
-            evals += 1;
+            evals += 2;
+            // the verbose build must decide like the silent one
+            let dec_v = run1(&pr.dec_verbose, d);
+            if dec.is_ok() != dec_v.is_ok() && !matches!(&dec_v, Err(e) if e.starts_with("PANIC")) {
+                run.violation(Violation {
+                    signature: format!("decoder-depends-on-tracing|{}", shape_of(&pr.ty)),
+                    what: format!("type {tname}, Data {}: the compiled `expect` {} it in a silent build and {} it in a verbose build", rterm::show_data(d), if dec.is_ok() { "accepts" } else { "rejects" }, if dec_v.is_ok() { "accepts" } else { "rejects" }),
+                    case: json!({"engine":"c12","type":tname,"type_index":k,"data":crate::datau_json(d),"kind":kind}),
+                });
+            }
             let case = json!({"engine":"c12","type":tname,"type_index":k,"data":crate::datau_json(d),"kind":kind});
             let mutation = kind.split(':').last().unwrap_or("").to_string();
             let schema_ok = match schema {
